@@ -110,6 +110,27 @@ CHECKS = {
              "C07's subject; tags handed to send are distinct; select() is not covered",
         technique="Lean 4 invariants over a specification automaton (refinement at API level) + deterministic simulation of the real runtime",
         design="§5 C09"),
+    "C11": dict(
+        text="Lean 4 theorems about a specification automaton for the RPC stub that every single-vCPU history of do_call calls/returns, "
+             "request writes (with the allocated tag), header reads, body reads (with the caller-owned buffer they go into), reader "
+             "interrupts and queue counts must be accepted by. For every reachable state (invariant by induction over all accepted "
+             "histories): a call that reports success has had exactly one response collected into its own buffer, that response's header "
+             "carried the tag the call's request was sent with, the byte count is the body's and the bytes the caller sees are that "
+             "response's; a response is delivered to at most one call; a body read starts only into the buffer of a call still in progress "
+             "and the call cannot return (nor the reader leave) until that read has ended; the reader wakes only a caller whose response has "
+             "been collected; the return of a (failing) call changes no other call's record and a failing reader may drop only a header no "
+             "waiting call is addressed by; at quiescence with outstanding calls somebody is reading, no bytes lie unread, and the engine's "
+             "queue holds exactly the outstanding calls; it is empty in the end. Tied to the code by generated programs on the real "
+             "StubImpl+OooEngine over a scripted in-memory stream (permuted, fragmented, delayed across individual deadlines, unanswered, "
+             "duplicate, unknown-tag responses, stream errors, failing/slow writes); an independent payload/canary oracle supplies failing "
+             "programs. Finding F4 (use after return on a follower's timeout) was shown by the check and repaired in /repo",
+        note="trusted: Lean kernel + 3 standard axioms; single vCPU (the API requires it); the harness calls Stub::do_call (the raw iovector "
+             "call under the typed call<> templates; serialization is C12's subject) over its own IStream - kernel sockets, TLS and the "
+             "Skeleton (server side) are not covered; writes to the OooArgs context on the caller's stack are observed only through their "
+             "externally visible effects (interrupts, buffer writes, hangs), not byte by byte; ooo_issue_operation / ooo_wait_completion "
+             "used separately (result collected before wait) and user-defined tags are not exercised",
+        technique="Lean 4 invariants over a specification automaton (refinement at API level) + deterministic simulation of the real runtime",
+        design="§5 C11"),
     "C14": dict(
         text="Lean 4 theorems, for every vector shape (any number of elements, zero-length elements anywhere), every byte count and "
              "every destination shape, that each modelled operation equals its effect on the flat address sequence: sum, shrink_to, "
@@ -150,8 +171,8 @@ CHECKS = {
              "reference-count oracle supplies failing programs",
         note="trusted: Lean kernel + 3 standard axioms; single vCPU; ObjectCache<int,Obj*> only - ObjectCacheV2 and the intrusive-list "
              "variant are not covered; the size limit (num_limit) is not exercised; a program-level deadlock (a holder re-acquiring a key "
-             "while another thread's recycling release waits for it) is not counted as a violation; failure cooldown is exercised with "
-             "cooldown 0 only",
+             "while another thread's recycling release waits for it) is not counted as a violation; the failure-cooldown clause is a theorem "
+             "(null without trying the constructor only within the cooldown of a real failure) exercised with cooldowns 0..1e9",
         technique="Lean 4 invariants over a specification automaton (refinement at API level) + deterministic simulation of the real runtime",
         design="§5 C19"),
     "C20": dict(
